@@ -285,9 +285,8 @@ def count_form(rng, i, ctx, what):
     if i is None:
         return None
     cands = [int, int, np.int32, np.int64, np.intp, np.uint8, np.uint64, lambda v: np.array(v)]
-    if what == "ts_length" and i == 0:
-        # unsigned zero: `ts_length-1` wraps around in the code (probed separately, see "ts_length_zero_unsigned")
-        cands = [int, np.int32, np.int64, np.intp]
+    if what == "ts_length" and i == 0 and not isinstance(i, bool):
+        ctx.count("form:ts_length:zero")   # unsigned zeros included: `ts_length-1` must not wrap (fix d656660)
     if i >= 256:
         cands = [c for c in cands if c is not np.uint8]
     t = rng.choice(cands)
@@ -377,14 +376,11 @@ def code_of(v):
     return int(x) if x == int(x) else 100000 + int(round(2 * x))
 
 
-def finding(ctx, key, what, replay):
-    """a defect of the *unchanged* tree reported to the coordinator: once listed in known_findings.txt it is
-    printed as KNOWN-FINDING; until then it is only counted and stored in the evidence (unlisted_findings)"""
-    if key in ctx.known:
-        ctx.spec_fail(key, what, replay)
-    else:
-        ctx.count("unlisted-finding:" + key)
-        ctx.extra.setdefault("unlisted_findings", {}).setdefault(key, {"what": what, "replay": replay})
+def observe(ctx, name, what, replay):
+    """behaviour on an undocumented argument form that the coordinator classified as an observation, not a
+    finding: counted and kept (first instance) in the evidence, never a verdict"""
+    ctx.count("observation:" + name)
+    ctx.extra.setdefault("observations", {}).setdefault(name, {"what": what, "replay": replay})
 
 
 # ----------------------------------------------------------------------------
@@ -501,6 +497,8 @@ def sim_case(ctx, ch, arg, reps, ts, via, dyadic, cases, tagbase, fixed_u=None, 
             return "ERR:ValueError", None, rs
         except IndexError:
             return "ERR:IndexError", None, rs
+        except MemoryError:
+            return "ERR:MemoryError", None, rs
         X = np.asarray(X)
         if sv is not None and via == "simulate":
             X = np.array([code_of(v) for v in X.ravel()], dtype=np.int64).reshape(X.shape)   # labels -> codes
@@ -527,7 +525,12 @@ def sim_case(ctx, ch, arg, reps, ts, via, dyadic, cases, tagbase, fixed_u=None, 
               "num_reps_repr": repr(reps_obj)}
     key = "simulate_sparse" if ch.sparse else "simulate_dense"
     # ---- spec oracle on the code's output ----
-    if exp == "ERR" or ts == 0:
+    if ts == 0 and exp != "ERR" and not out.startswith("ERR:ValueError"):
+        # ts_length = 0 must be refused in every integer form (an unsigned NumPy 0 used to wrap around in
+        # `ts_length-1`: 255 uniforms for a (k, 0) output and an out-of-bounds write in the kernel)
+        ctx.spec_fail("ts_length_zero_unsigned", "ts_length=%r accepted / mishandled: %s (a Python 0 raises ValueError)"
+                      % (ts_obj, out), replay)
+    elif exp == "ERR" or ts == 0:
         ctx.count("sim:error-expected")
         if not out.startswith("ERR:ValueError"):
             # (negative in-range inits may legitimately be accepted or rejected; out-of-range never accepted)
@@ -863,26 +866,28 @@ def run(ctx):
         cases.append(Case("C10 %s sv0=%s nops=%d %s" % (wire, "none" if sv0 is None else ints(sv0), len(ops), " ".join(ops)),
                           " ## ".join(outs), nontrivial=True, tag="history"))
 
-    # ---- ts_length = 0 given as an unsigned NumPy integer (interpreted kernels only: never run compiled) ----
+    # ---- ts_length = 0 in every unsigned form, always exercised (interpreted kernels first, as everywhere) ----
     mc0 = MarkovChain(np.array([[0.5, 0.5], [0.25, 0.75]]))
-    for z in (np.uint8(0), np.uint16(0)):
-        rs = Planted(uniforms=[])
+    ch0 = Chain(mc0)
+    import warnings
+    for z in (np.uint8(0), np.uint16(0), np.uint32(0), np.uint64(0)):
+        rs = Planted(uniforms=[np.zeros((1, 0))])     # nothing may be drawn beyond an empty (1, -1)-shaped request
         try:
-            import warnings
             with interpreted_kernels(), warnings.catch_warnings():
                 warnings.simplefilter("ignore")
                 X = mc0.simulate_indices(z, init=0, random_state=rs)
             out = "returned shape %s" % (np.shape(X),)
         except ValueError:
             out = "ERR:ValueError"
-        except IndexError:
-            out = "ERR:IndexError"
-        ctx.count("probe:ts_length-unsigned-zero:" + out.split(" ")[0])
+        except (IndexError, MemoryError) as e:
+            out = "ERR:" + type(e).__name__
+        ctx.count("ts_length-unsigned-zero:" + out.split(" ")[0])
         if out != "ERR:ValueError":
-            finding(ctx, "ts_length_zero_unsigned",
-                    "simulate_indices(ts_length=%r, init=0): %s; with a Python int 0 it raises ValueError. `ts_length-1` wraps "
-                    "around for unsigned NumPy integers, 255/65535 uniforms are drawn for a (k, 0) output and the kernel "
-                    "writes out[i, 0] outside the array" % (z, out), {"op": "simulate_indices", "ts_length": repr(z), "init": 0})
+            ctx.spec_fail("ts_length_zero_unsigned",
+                          "simulate_indices(ts_length=%r, init=0): %s; with a Python int 0 it raises ValueError" % (z, out),
+                          {"op": "simulate_indices", "ts_length": repr(z), "init": 0, "P": [[0.5, 0.5], [0.25, 0.75]]})
+        cases.append(Case("C10 %s init=s:0 reps=none drawn=- via=indices ts=0 u=-" % ch0.wire("float"),
+                          ch0.code_cdfs("float") + "|" + out, nontrivial=False, tag="dense:float"))
 
     # ---- the constructor's checks: which matrices are chains at all -----------------------------
     from fractions import Fraction
@@ -1047,7 +1052,7 @@ def run(ctx):
             # the code takes the scalar for a one-point distribution (one extra uniform, start at state 0);
             # for an integer-valued 0-d array that is not what "scalar(int)" in the docstring promises
             if zero_d_int is not None and (X is None or int(X[0]) != zero_d_int or rs.log[:1] == [np.float64(u0)]):
-                finding(ctx, "mc_sample_path_0d_int_init",
+                observe(ctx, "mc_sample_path_0d_int_init",
                         "mc_sample_path(init=np.array(%d)) treats the 0-d integer array as a distribution: draws an extra "
                         "uniform and starts at state %s" % (zero_d_int, None if X is None else int(X[0])), replay)
         elif not (0 <= x0 < n):
@@ -1125,22 +1130,29 @@ def run(ctx):
                               "Q=%s|%s" % (f1(Qc), ints(idx)), nontrivial=kdraw > 0, tag="drv:" + sc))
         # random.draw (pure-Python entry; the uniforms come from np.random.random)
         size = kdraw if rng.random() < 0.8 or kdraw != 1 else None
-        want = np.array(us, dtype=float) if size is not None else (us[0] if us else 0.5)
+        size_obj = size if size is None or rng.random() < 0.5 else \
+            rng.choice([np.int64, np.int32, np.int16, np.intp, np.uint8, np.uint64])(size)
+        if size is not None:
+            ctx.count("form:draw-size:" + type(size_obj).__name__)
         calls = []
 
-        def fake_random(sz=None, _want=want):
+        def fake_random(sz=None, _us=us):
             calls.append(sz)
-            return _want
+            return (_us[0] if _us else 0.5) if sz is None else np.array(_us[:int(sz)], dtype=float)
         cdf_arr = np.array(cdf)
         with mock.patch.object(np.random, "random", fake_random):
-            got = qru.draw(cdf_arr, size)
-        gl = [int(got)] if size is None else [int(x) for x in got]
-        ul = [float(want)] if size is None else us
+            got = qru.draw(cdf_arr, size_obj)
         bad = None
-        if calls != [size] and not (size is None and calls == []):
-            bad = "np.random.random called with %r for size=%r" % (calls, size)
         if size is not None and np.shape(got) != (size,):
-            bad = "shape %s for size %r" % (np.shape(got), size)
+            # every numbers.Integral size asks for an array of that many draws (fix c73be8b)
+            ctx.spec_fail("random_draw_numpy_int_size", "random.draw(cdf, size=%r) returned %r (shape %s), not %d draws"
+                          % (size_obj, got, np.shape(got), size),
+                          {"op": "random.draw", "cdf": [x.hex() for x in cdf], "size": repr(size_obj), "code": repr(got)})
+        scalar_out = np.ndim(got) == 0
+        gl = [int(got)] if scalar_out else [int(x) for x in got]
+        ul = [float(us[0]) if us else 0.5] if scalar_out else us[:len(gl)]
+        if calls != [size_obj] and not (size is None and calls == []):
+            bad = "np.random.random called with %r for size=%r" % (calls, size_obj)
         for u, j in zip(ul, gl):
             bad = bad or inv_cdf_ok(q, cdf, u, j)
         if bad:
@@ -1151,12 +1163,12 @@ def run(ctx):
             cases.append(Case("C10 draw sc=%s cdf=%s u=%s" % (sc, f1(cdf), f1(ul)), ints(gl),
                               nontrivial=len(ul) > 0, tag="draw:" + sc))
     # random.draw(cdf, size) with `size` a NumPy integer (Python-level entry)
-    for _ in range(ctx.n(30, 200)):
+    for _ in range(ctx.n(80, 500)):
         n = rng.choice([2, 3, 7])
         q, _d = gen_row(rng, n, ctx)
         cdf = seq_cumsum(q)
         size = rng.choice([1, 2, 5])
-        size_obj = rng.choice([np.int64, np.int32, np.intp, np.uint8])(size)
+        size_obj = rng.choice([np.int64, np.int32, np.int16, np.int8, np.intp, np.uint8, np.uint64])(size)
         us = [plant_uniform(rng, q, cdf, ctx) for _ in range(size)]
         calls = []
 
@@ -1169,9 +1181,9 @@ def run(ctx):
         rep = {"op": "random.draw", "cdf": [x.hex() for x in cdf], "size": repr(size_obj), "uniforms": [u.hex() for u in us],
                "code": repr(got)}
         if np.shape(got) != (size,):
-            finding(ctx, "random_draw_numpy_int_size",
-                    "random.draw(cdf, size=%r) returned %r (shape %s) instead of %d draws: the Python-level entry tests "
-                    "isinstance(size, int)" % (size_obj, got, np.shape(got), size), rep)
+            ctx.spec_fail("random_draw_numpy_int_size",
+                          "random.draw(cdf, size=%r) returned %r (shape %s) instead of %d draws (fix c73be8b: every "
+                          "numbers.Integral size is a sample size)" % (size_obj, got, np.shape(got), size), rep)
             gl, ul = [int(got)], us[:1]
         else:
             gl, ul = [int(x) for x in got], us
